@@ -472,7 +472,7 @@ fn run(ctx: &Ctx, report: &mut Report) {
                     if nontrivial && h.len() >= 3 {
                         report.sample(|| json!({"actor": actor, "history": h.iter().map(|e| format!("{e:?}")).collect::<Vec<_>>(), "last": observed}));
                     }
-                    Some(BfsOutcome { key, observed })
+                    Some(BfsOutcome { key, observed, enabled: None })
                 }
             }
         });
